@@ -20,6 +20,8 @@ def jobs(tier):
         mk('C08', 'late_grandchild', S.late_grandchild(), witnesses=W),
         mk('C08', 'redispatch', S.redispatch(), witnesses=W),
         mk('C08', 'child/ff', S.child('ff', k=0), witnesses=W),
+        mk('C08', 'read_after_completion', S.read_after_completion(), witnesses=W),
+        mk('C08', 'read_after_completion/par', S.read_after_completion(parallel=True), witnesses=W),
         mk('C08', 'fw/chain2', S.forward_chain(2, topo='chain'), witnesses=W),
         mk('C08', 'fw/chain2/poll', S.forward_chain(2, topo='chain', poll=True), witnesses=W),
         mk('C08', 'fw/chain3', S.forward_chain(3, topo='chain'), witnesses=W),
